@@ -178,17 +178,17 @@ fn c11_score_cursor_roundtrip() {
 //@ props: C11
 //@ tier: quick
 //@ funcs: api::reader::PaginationCursor::encode (source slice: hex loop on one byte), PaginationCursor::decode (source slice: chunk step), api::reader::hex_encode, api::reader::hex_decode
-//@ symbolic: nothing - every 4th byte value (64 values covering every high and low nibble) is executed concretely inside one formula: a String built from a symbolic char has a symbolic length for the symbolic executor and does not terminate
-//@ bounds: 64 of the 256 byte values (b = 4k + (k/16)%4), each a concrete run
+//@ symbolic: nothing - the 16 byte values 0x00, 0x11, .. 0xff (every hex digit in both positions; the two table lookups do not depend on each other) are executed concretely inside one formula: a String built from a symbolic char has a symbolic length for the symbolic executor and does not terminate
+//@ bounds: 16 of the 256 byte values (b = 17k), each a concrete run
 //@ oracle: chunk(hex(b)) = b and hex_decode(hex_encode([b])) = [b]; the hex text is 2 characters
 #[kani::proof]
-#[kani::unwind(66)]
+#[kani::unwind(18)]
 #[kani::stub(std::backtrace::Backtrace::capture, stub_backtrace)]
 #[kani::stub(alloc::fmt::format, stub_format)]
 fn c11_cursor_hex_step_sweep() {
   let mut k = 0u32;
-  while k < 64 {
-    let b = (4 * k + (k / 16) % 4) as u8;
+  while k < 16 {
+    let b = (17 * k) as u8;
     let s = slice_cursor_hex(b);
     assert!(s.len() == 2, "C11: a cursor byte must encode to 2 characters");
     match slice_cursor_chunk(0, s.as_bytes()) {
@@ -339,61 +339,6 @@ fn c11_stale_generation_rejected() {
   kani::cover!(r.is_err(), "stale generation rejected");
   std::mem::forget(r);
   std::mem::forget(key);
-}
-
-fn hit(score_bits: u32, seg: u32, doc: u32) -> RankedHit {
-  let score = f32::from_bits(score_bits);
-  RankedHit {
-    key: score_sort_key(score, seg, doc, SortOrder::Desc),
-    score,
-    vector_score: None,
-    explanation: None,
-  }
-}
-
-//@ props: C11, C10
-//@ tier: quick
-//@ funcs: api::reader::push_ranked, api::reader::RankedHit::cmp
-//@ symbolic: 3 candidate hits (any score bits, segment in 0..2, distinct doc ids) pushed in order; limit 0..2
-//@ bounds: 3 pushes, limit <= 2
-//@ oracle: the heap holds exactly min(limit, 3) hits and they are the smallest keys under SortKey::cmp (score desc, segment, doc): no kept hit is worse than a dropped one
-#[kani::proof]
-#[kani::unwind(6)]
-fn c11_push_ranked_keeps_best() {
-  let limit: usize = kani::any();
-  kani::assume(limit <= 2);
-  let bits: [u32; 3] = kani::any();
-  let segs: [u32; 3] = kani::any();
-  kani::assume(segs[0] < 2 && segs[1] < 2 && segs[2] < 2);
-  let mut heap: BinaryHeap<RankedHit> = BinaryHeap::new();
-  let mut i = 0;
-  while i < 3 {
-    push_ranked(&mut heap, hit(bits[i], segs[i], i as u32), limit);
-    i += 1;
-  }
-  let want = if limit < 3 { limit } else { 3 };
-  assert!(heap.len() == want, "C11: push_ranked keeps the wrong number of hits");
-  // kept[i] = hit i is still in the heap
-  let mut kept = [false; 3];
-  for h in heap.iter() {
-    kept[h.key.doc_id as usize] = true;
-  }
-  let mut a = 0;
-  while a < 3 {
-    let mut b = 0;
-    while b < 3 {
-      if kept[a] && !kept[b] {
-        let ka = score_sort_key(f32::from_bits(bits[a]), segs[a], a as u32, SortOrder::Desc);
-        let kb = score_sort_key(f32::from_bits(bits[b]), segs[b], b as u32, SortOrder::Desc);
-        assert!(ka.cmp(&kb) == std::cmp::Ordering::Less, "C11: a dropped hit ranks before a kept hit");
-      }
-      b += 1;
-    }
-    a += 1;
-  }
-  kani::cover!(limit == 2 && kept[2] && kept[1], "late better hits replace earlier ones");
-  kani::cover!(limit == 0, "limit zero");
-  std::mem::forget(heap);
 }
 
 // --------------------------------------------------------------------------
